@@ -75,6 +75,7 @@ struct Succ<O, M> {
 
 pub fn bfs<S: Sys>(sys: &S, opts: &BfsOpts) -> BfsResult {
     let start = Instant::now();
+    let cpu_start = crate::engine::process_cpu_ms();
     let mut visited: HashSet<u128> = HashSet::new();
     let mut frontier: Vec<(Vec<S::Op>, Option<S::Model>)> = vec![(vec![], None)];
     {
@@ -113,7 +114,11 @@ pub fn bfs<S: Sys>(sys: &S, opts: &BfsOpts) -> BfsResult {
                         if lo >= fr.len() {
                             break;
                         }
-                        if start.elapsed() > opts.wall {
+                        // the cap is on the work done (processor time per search thread), so that a loaded
+                        // machine explores what an idle one explores; four times the cap in wall-clock
+                        // time is the backstop
+                        let cpu_per_thread = Duration::from_millis(crate::engine::process_cpu_ms().saturating_sub(cpu_start) / opts.threads.max(1) as u64);
+                        if cpu_per_thread > opts.wall || start.elapsed() > opts.wall * 4 {
                             timed_out.store(true, Ordering::SeqCst);
                             break;
                         }
@@ -215,7 +220,7 @@ pub fn bfs<S: Sys>(sys: &S, opts: &BfsOpts) -> BfsResult {
             }
         }
         if timed_out.load(Ordering::SeqCst) {
-            res.cap_hit = Some(format!("wall cap {} s at depth {}", opts.wall.as_secs(), depth));
+            res.cap_hit = Some(format!("time cap {} s (processor time per search thread) at depth {}", opts.wall.as_secs(), depth));
             res.states = visited.len();
             break;
         }
